@@ -478,3 +478,51 @@ def u_pairing_closed(ctx):
 
 
 UNITS["pairing.closed"] = Unit("pairing.closed", u_pairing_closed, [], kind="closed", props=("C05", "C12"), budget_s=900)
+
+
+# ------------------------------------------------------------------------------------------
+# cast_point_to_fq12: the componentwise embedding F_p -> F_p12 (all four modules)
+# ------------------------------------------------------------------------------------------
+def u_cast(ctx, modname):
+    from pyvc.interp import Obj, ClassVal
+    from pyvc.pymodel import _FakeClassNode
+    from pyvc.core import PToken
+    info = MODS[modname]
+    q = f"{modname}.cast_point_to_fq12"
+    fv = get_function(ctx.prog, q)
+
+    def body(path):
+        it = mk_interp(ctx, q)
+        mod = it.prog.load(modname)
+        FQ12c = it.module_value(mod, "FQ12")
+        FQc = it.module_value(mod, "FQ")
+        p = info["p"]
+        K = FldKind("ZmodP", modulus=p)
+        n = 3 if info["opt"] else 2
+        cs = [Fld(PR(Poly.var(f"c{i}")), K, reduced=True) for i in range(n)]
+        pt = []
+        for c in cs:
+            o = Obj(FQc)
+            o.attrs["n"] = c
+            pt.append(o)
+        kind, res = call_top(it, fv, [tuple(pt)])
+        if kind == "raise":
+            path.prove(f"{q}/raises.none", False, detail=res.__name__)
+            return
+        ok = isinstance(res, tuple) and len(res) == n and all(isinstance(r_, Obj) and r_.cls.is_subclass(FQ12c) for r_ in res)
+        path.prove(f"{q}/ensures.shape", ok)
+        if not ok:
+            return
+        from contracts.fields import coeff_abs
+        for c, r_ in zip(cs, res):
+            co = [coeff_abs(v, K) for v in r_.attrs["coeffs"]]
+            path.prove(f"{q}/ensures.embedding", bool(path.pc.prove_zero((co[0] - c).r.n)) and
+                       all(path.pc.prove_zero(v.r.n) for v in co[1:]), detail="coordinate c maps to c + 0 w + ... + 0 w^11")
+        kind2, res2 = call_top(mk_interp(ctx, q), fv, [None])
+        path.prove(f"{q}/ensures.none", kind2 == "ret" and res2 is None, detail="None (infinity) maps to None")
+    ctx.ex.run(body, q)
+
+
+for _m in MODS:
+    _s = _m.split(".")[1]
+    UNITS[f"{_s}.cast_point_to_fq12"] = Unit(f"{_s}.cast_point_to_fq12", u_cast, [f"{_m}.cast_point_to_fq12"], props=("C05", "C12"), args=(_m,))
